@@ -37,7 +37,7 @@ def build():
 def _model(cases):
     exe = build()
     # the interpreter recurses deeply (fuel bounds the depth): lift the stack limit
-    wrapper = ["-c", 'ulimit -s unlimited 2>/dev/null || ulimit -s 4000000 2>/dev/null; exec "$0" "$@"', exe]
+    wrapper = ["-c", 'ulimit -s unlimited 2>/dev/null || ulimit -s 4000000 2>/dev/null; OCAMLRUNPARAM=s=4M,o=400 exec "$0" "$@"', exe]
     return vlib.model("/bin/sh", wrapper, cases)
 
 
